@@ -81,7 +81,9 @@ def concrete_body_classes() -> list[type]:
 
 
 def hpais() -> list[HPAI]:
-    return [HPAI(), HPAI("192.168.1.2", 3671), HPAI("255.255.255.255", 65535), HPAI(protocol=HostProtocol.IPV4_TCP)]
+    # index 0..3 are referred to by position below; the mixed forms (wildcard address with a port, address with port 0) come last
+    return [HPAI(), HPAI("192.168.1.2", 3671), HPAI("255.255.255.255", 65535), HPAI(protocol=HostProtocol.IPV4_TCP),
+            HPAI("0.0.0.0", 3671), HPAI("192.168.1.2", 0), HPAI("0.0.0.0", 65535, protocol=HostProtocol.IPV4_TCP)]
 
 
 def dib_device(name: str = "Gira KNX/IP-Router", prog: bool = False) -> DIBDeviceInformation:
@@ -189,11 +191,11 @@ def bodies(thorough: bool = False) -> Iterator[Any]:
         d.dibs = list(lst)
         yield d
     for c in cris():
-        for h1, h2 in [(H[0], H[0]), (H[1], H[2]), (H[3], H[3])]:
+        for h1, h2 in [(H[0], H[0]), (H[1], H[2]), (H[3], H[3]), (H[4], H[5]), (H[6], H[4])]:
             yield ConnectRequest(control_endpoint=h1, data_endpoint=h2, cri=c)
     for crd in crds():
         for ch in (0, 1, 255):
-            for h in (H[1], H[3]):
+            for h in (H[1], H[3], H[4], H[5]):
                 yield ConnectResponse(communication_channel=ch, status_code=ErrorCode.E_NO_ERROR, data_endpoint=h, crd=crd)
     for st in ErrorCode:
         # (an error ConnectResponse carries no HPAI/CRD on the wire; xknx cannot represent that form from its
